@@ -259,6 +259,166 @@ Fixpoint executed (ops : list op) (s : st) : list str :=
   end.
 
 (* ------------------------------------------------------------------------------------------ *)
+(* The cone relative to the EVOLVING graph (rebuilds that change nodes and edges)               *)
+(* ------------------------------------------------------------------------------------------ *)
+(* h: the states visited by the rebuild so far, each with the transaction applied in it.  The cone
+   is the least set of keys that contains the edited files and the steps in G, and is closed under
+   - a dependency row that existed in some visited state (file -> consuming step, step -> output);
+   - a creator link that existed in some visited state (a node declared by a cone node);
+   - the declarations made during the rebuild by a cone step: the step it defines, the outputs
+     of that step, the static files it declares, the outputs it amends.
+   As before this is closed under cone MEMBERSHIP (an over-approximation of "executed"). *)
+Inductive tcone (E G : list str) (h : list (st * op)) : key -> Prop :=
+| tc_edited f : In f E -> tcone E G h (KFile, f)
+| tc_glob l : In l G -> tcone E G h (KStep, l)
+| tc_dep s o a b : In (s, o) h -> tcone E G h a -> has_dep a b s = true -> tcone E G h b
+| tc_created s o a n : In (s, o) h -> tcone E G h a -> In n (nodes s) -> ncre n = Some a -> tcone E G h (nk n)
+| tc_defined s c l i e o v nd : In (s, OpDefineStep c l i e o v nd) h -> tcone E G h c -> tcone E G h (KStep, l)
+| tc_outputs s c l i e o v nd f : In (s, OpDefineStep c l i e o v nd) h -> tcone E G h c ->
+                                  In f (o ++ v) -> tcone E G h (KFile, f)
+| tc_static s c ps f : In (s, OpDeclareStatic c ps) h -> tcone E G h c -> In f ps -> tcone E G h (KFile, f)
+| tc_amended s l i e o v f : In (s, OpAmendStep l i e o v) h -> tcone E G h (KStep, l) ->
+                             In f (o ++ v) -> tcone E G h (KFile, f).
+
+Definition in_flight (l : str) (s : st) : Prop :=
+  sstate_of l s = Some SRunning \/ sstate_of l s = Some SChecking.
+Definition is_running (l : str) (s : st) : Prop := sstate_of l s = Some SRunning.
+(* an attached step that the finalize of the previous build left PENDING: not required then *)
+Definition idle_optional_b (q : st) (l : str) : bool :=
+  attached (KStep, l) q && match sstate_of l q with Some SPending => true | _ => false end.
+
+(* a path of a hash update: in the cone, and so is the step that created it *)
+Definition path_in_cone (E G : list str) (h : list (st * op)) (s : st) (p : str) : Prop :=
+  tcone E G h (KFile, p) /\ forall cr, step_creator_of_file p s = Some cr -> tcone E G h (KStep, cr).
+(* an input of a declaration: an orphaned (creator-less) node whose old row is BUILT is re-created
+   by _resolve_supply_file and File.initialize_row marks its consumers PENDING; such a path has to
+   be in the cone *)
+Definition input_in_cone (E G : list str) (h : list (st * op)) (s : st) (l : str) : Prop :=
+  creator_of (KFile, l) s <> None \/ fstate_of l s <> Some FBuilt \/ tcone E G h (KFile, l).
+
+(* The transactions of a rebuild covered by cone_invariant_partial2, with the protocol facts the
+   executor / director guarantee for them (q: the quiescent state the rebuild starts from; h
+   already contains the pair (s, o) of the transaction itself).
+   NOT covered: delete_detached and revert_optional (finalize, after the rebuild),
+   reset_interrupted in any other state than q. *)
+Inductive cone_op2 (q : st) (E G : list str) (h : list (st * op)) (s : st) : op -> Prop :=
+| c2_startup : s = q -> cone_op2 q E G h s OpResetInterrupted
+| c2_external hs : (forall ph, In ph hs -> In (fst ph) E) -> static_sources_b s hs = true ->
+                   cone_op2 q E G h s (OpUpdateHashes CExternal hs)
+| c2_confirm hs : (forall ph, In ph hs -> path_in_cone E G h s (fst ph)) ->
+                  cone_op2 q E G h s (OpUpdateHashes CConfirmed hs)
+| c2_mark l : tcone E G h (KStep, l) -> cone_op2 q E G h s (OpMarkStepPending l)
+| c2_dispatch l : dispatch_guard l s = true ->
+                  idle_optional_b q l = false \/ tcone E G h (KStep, l) ->
+                  cone_op2 q E G h s (OpDispatch l)
+| c2_validate l : in_flight l s -> cone_op2 q E G h s (OpValidatePending l)
+| c2_rerun l : in_flight l s -> cone_op2 q E G h s (OpResetForRerun l)
+| c2_reset_pending l : in_flight l s -> cone_op2 q E G h s (OpResetToPending l)
+| c2_exec_end l pre c hs ok wd :
+    in_flight l s -> (forall ph, In ph (pre ++ hs) -> path_in_cone E G h s (fst ph)) ->
+    cone_op2 q E G h s (OpExecEnd l pre c hs ok wd)
+| c2_define c l i e o v nd :
+    is_running c s -> (forall f, In f i -> input_in_cone E G h s f) ->
+    cone_op2 q E G h s (OpDefineStep (KStep, c) l i e o v nd)
+| c2_static c ps : is_running c s -> cone_op2 q E G h s (OpDeclareStatic (KStep, c) ps)
+| c2_amend l i e o v :
+    is_running l s -> (forall f, In f i -> input_in_cone E G h s f) ->
+    cone_op2 q E G h s (OpAmendStep l i e o v)
+| c2_hold l : cone_op2 q E G h s (OpHold l)
+| c2_release l : cone_op2 q E G h s (OpRelease l).
+
+Fixpoint cone_ops2 (q : st) (E G : list str) (h : list (st * op)) (s : st) (ops : list op) : Prop :=
+  match ops with
+  | [] => True
+  | o :: ops' => cone_op2 q E G ((s, o) :: h) s o /\ cone_ops2 q E G ((s, o) :: h) (apply_op s o) ops'
+  end.
+Fixpoint rebuild_hist (h : list (st * op)) (s : st) (ops : list op) : list (st * op) :=
+  match ops with
+  | [] => h
+  | o :: ops' => rebuild_hist ((s, o) :: h) (apply_op s o) ops'
+  end.
+(* every label that pop_next_job hands out (a command or only a hash check) *)
+Fixpoint dispatched (ops : list op) : list str :=
+  match ops with
+  | [] => []
+  | OpDispatch l :: ops' => l :: dispatched ops'
+  | _ :: ops' => dispatched ops'
+  end.
+
+(* ---- executable versions (evaluated on real rebuild traces by the E2 correspondence) --------- *)
+Definition decl_edges (o : op) : list (key * key) :=
+  match o with
+  | OpDefineStep c l _ _ ou v _ => (c, (KStep, l)) :: map (fun f => (c, (KFile, f))) (ou ++ v)
+  | OpDeclareStatic c ps => map (fun f => (c, (KFile, f))) ps
+  | OpAmendStep l _ _ ou v => map (fun f => ((KStep, l), (KFile, f))) (ou ++ v)
+  | _ => []
+  end.
+Definition link_edges (s : st) : list (key * key) :=
+  flat_map (fun n => match ncre n with Some a => [(a, nk n)] | None => [] end) (nodes s).
+Definition cone_edges (h : list (st * op)) : list (key * key) :=
+  flat_map (fun so => dep_edges (fst so) ++ link_edges (fst so) ++ decl_edges (snd so)) h.
+Definition cone_seeds (E G : list str) : list key :=
+  map (fun f => (KFile, f)) E ++ map (fun l => (KStep, l)) G.
+Definition tcone_keys (E G : list str) (h : list (st * op)) : list key :=
+  closure_from key_eqb (cone_edges h) (length (cone_edges h)) (cone_seeds E G).
+Definition tcone_b (E G : list str) (h : list (st * op)) (k : key) : bool := mem_key k (tcone_keys E G h).
+
+Definition in_flight_b (l : str) (s : st) : bool :=
+  match sstate_of l s with Some SRunning | Some SChecking => true | _ => false end.
+Definition is_running_b (l : str) (s : st) : bool :=
+  match sstate_of l s with Some SRunning => true | _ => false end.
+Definition path_in_cone_b (cone : list key) (s : st) (p : str) : bool :=
+  mem_key (KFile, p) cone &&
+  match step_creator_of_file p s with Some cr => mem_key (KStep, cr) cone | None => true end.
+Definition input_in_cone_b (cone : list key) (s : st) (l : str) : bool :=
+  is_some (creator_of (KFile, l) s)
+  || negb (match fstate_of l s with Some FBuilt => true | _ => false end)
+  || mem_key (KFile, l) cone.
+
+(* 0 = the transaction satisfies cone_op2; otherwise the clause that fails:
+   1 transaction outside the covered alphabet, 2 EXTERNAL paths not edited static sources,
+   3 a hash-update path (or its creator) outside the cone, 4 a step outside the cone marked PENDING,
+   5 dispatch guard false, 6 an idle optional step outside the cone is dispatched,
+   7 the job is not in flight, 8 the requesting step is not RUNNING,
+   9 an orphaned BUILT input outside the cone is adopted *)
+Definition cone_op2_why (q : st) (E G : list str) (h : list (st * op)) (s : st) (o : op) : N :=
+  let cone := tcone_keys E G h in
+  match o with
+  | OpUpdateHashes CExternal hs =>
+    if forallb (fun ph => mem_str (fst ph) E) hs && static_sources_b s hs then 0 else 2
+  | OpUpdateHashes CConfirmed hs =>
+    if forallb (fun ph => path_in_cone_b cone s (fst ph)) hs then 0 else 3
+  | OpMarkStepPending l => if mem_key (KStep, l) cone then 0 else 4
+  | OpDispatch l =>
+    if negb (dispatch_guard l s) then 5
+    else if negb (idle_optional_b q l) || mem_key (KStep, l) cone then 0 else 6
+  | OpValidatePending l | OpResetForRerun l | OpResetToPending l => if in_flight_b l s then 0 else 7
+  | OpExecEnd l pre c hs ok wd =>
+    if negb (in_flight_b l s) then 7
+    else if forallb (fun ph => path_in_cone_b cone s (fst ph)) (pre ++ hs) then 0 else 3
+  | OpDefineStep (KStep, c) l i e ou v nd =>
+    if negb (is_running_b c s) then 8 else if forallb (input_in_cone_b cone s) i then 0 else 9
+  | OpDeclareStatic (KStep, c) ps => if is_running_b c s then 0 else 8
+  | OpAmendStep l i e ou v =>
+    if negb (is_running_b l s) then 8 else if forallb (input_in_cone_b cone s) i then 0 else 9
+  | OpHold _ | OpRelease _ => 0
+  | _ => 1
+  end.
+(* index and reason of the first transaction that does not satisfy cone_op2 *)
+Fixpoint cone_ops2_first_bad (q : st) (E G : list str) (i : nat) (h : list (st * op)) (s : st) (ops : list op)
+  : option (nat * N) :=
+  match ops with
+  | [] => None
+  | o :: ops' =>
+    match cone_op2_why q E G ((s, o) :: h) s o with
+    | 0 => cone_ops2_first_bad q E G (S i) ((s, o) :: h) (apply_op s o) ops'
+    | c => Some (i, c)
+    end
+  end.
+Definition cone_ops2_b (q : st) (E G : list str) (s : st) (ops : list op) : bool :=
+  match cone_ops2_first_bad q E G 0 [] s ops with None => true | Some _ => false end.
+
+(* ------------------------------------------------------------------------------------------ *)
 (* Extended trace checker (Graph.op + revert_optional) for the E2 correspondence               *)
 (* ------------------------------------------------------------------------------------------ *)
 Inductive xop := XOp (o : op) | XRevert.
